@@ -18,7 +18,9 @@
     [_partial]: (c) covers blocks, let (right-hand side on the same or a later line, at any column), local
     and root function definitions (body on the same or a later line), multi-line if/elif/else chains with or
     without else (else body on the same or a later line; 'else'/'elif' at any column left of the preceding
-    block, which must not itself end in an if without else), the one-line if-then[-else], union matches (arm
+    block, which must not itself end in a multi-line if without else), then-bodies on the line of their
+    if/elif followed by else/elif on the same line (the one-line if c then a [elif d then b]... [else e]) or on
+    a later line at any column inside the offside line of the enclosing block, union matches (arm
     bars at any columns inside the offside line and left of the previous body, bodies on the same or a later
     line, a trailing default arm), string matches (literal rules and the closing variable rule at any column
     left of the previous body - they are not tested against the offside line -, the default rule inside it),
@@ -32,8 +34,10 @@
     definitions and package/import lines, and distinct columns for the tokens that are neither first on
     their line nor the first token of a same-line body (they share one arbitrary column [inner]).
 
-    The full statement is refuted on the pinned code for one clause of the layout grammar ("an if on one
-    line or several"): C06_elif_one_line_refuted (finding n, known_findings key elif-one-line). *)
+    Finding n ("an if on one line or several" failed with elif / with else on the next line) is repaired in
+    fc; the model transcribes the repaired parser: see C06_elif_one_line_accepted and the documentation
+    C06_elif_one_line_refuted_old below. Known finding string-arm-dedent (converse clause, string matches)
+    is visible in the validity predicate wf_sarms: literal and variable rules are not tied to the offside line. *)
 From Coq Require Import List ZArith Arith.
 From FoVerif Require Import Front.Layout Front.LayoutProofs Front.LayoutInv Front.LayoutEx.
 Import ListNotations.
@@ -98,15 +102,24 @@ Theorem C06_dedent_ends_block : forall inner b off k t c' r,
 Proof. exact dedent_ends_block. Qed.
 Print Assumptions C06_dedent_ends_block.
 
-(** the clause "an if may be written on one line or on several" fails for the transcribed parser:
-    the one-line form with elif, and an inline then-body followed by else on the next line, are rejected
-    while the multi-line form is accepted (the real fc agrees: hazard stream of the harness) *)
-Theorem C06_elif_one_line_refuted :
-  (exists t, parse_blocks 200 if_multi = Ok t) /\
-  parse_blocks 200 if_one_line_elif = Reject /\
-  parse_blocks 200 if_inline_then_newline_else = Reject.
-Proof. exact elif_one_line_refuted. Qed.
-Print Assumptions C06_elif_one_line_refuted.
+(** C06_elif_one_line_refuted_old (documentation, about the parser BEFORE the repair "fix: if/elif/else may
+    be written on one line"): the transcription of the old isEndOfTerm / parseIfAfterIfExpr (no ELIF in
+    isEndOfTerm; the one-line branch looked for 'else' on the same line only) gave
+        parse_blocks 200 if_one_line_elif            = Reject      (if c then a elif d then b else e)
+        parse_blocks 200 if_inline_then_newline_else = Reject      (if c then a / else e)
+    while parse_blocks 200 if_multi = Ok _, which refuted the clause "an if may be written on one line or on
+    several" (finding n; it was a theorem of this file up to commit 11b6999 of the verification repository).
+    With the repaired parser, transcribed in Front/Layout.v (p_if, p_if1, p_if_nl), the same token streams
+    give the tree of the multi-line form, and the one-line forms are covered by C06_layout_invariance_partial
+    (decorated trees TOne / R1Else / R1Elif / R1NlElse / R1NlElif). An else/elif on a later line belongs to
+    a one-line if only if it stands inside the offside line of the block that contains the if. *)
+Theorem C06_elif_one_line_accepted :
+  (exists t, parse_blocks 200 if_multi = Ok t /\ parse_blocks 200 if_one_line_elif = Ok t /\
+             parse_blocks 200 if_inline_elif_newline_else = Ok t) /\
+  (exists t, parse_blocks 200 if2_multi = Ok t /\ parse_blocks 200 if_inline_then_newline_else = Ok t) /\
+  parse_blocks 200 if_inline_then_else_left_of_block = Reject.
+Proof. exact elif_one_line_accepted. Qed.
+Print Assumptions C06_elif_one_line_accepted.
 
 (** non-vacuity *)
 Example C06_example_two_layouts :
@@ -115,6 +128,14 @@ Example C06_example_two_layouts :
   parse_blocks 400 (r_prog 0 ex_a) = Ok (er_prog ex_a) /\
   parse_blocks 400 (r_prog 99 ex_b) = Ok (er_prog ex_a).
 Proof. exact two_layouts_one_tree. Qed.
+
+Example C06_example_if_three_layouts :
+  wf_prog None ex_if_multi /\ wf_prog None ex_if_one_line /\ wf_prog None ex_if_mixed /\
+  er_prog ex_if_multi = er_prog ex_if_one_line /\ er_prog ex_if_multi = er_prog ex_if_mixed /\
+  parse_blocks 200 (r_prog 0 ex_if_multi) = Ok (er_prog ex_if_multi) /\
+  parse_blocks 200 (r_prog 30 ex_if_one_line) = Ok (er_prog ex_if_multi) /\
+  parse_blocks 200 (r_prog 30 ex_if_mixed) = Ok (er_prog ex_if_multi).
+Proof. exact if_three_layouts. Qed.
 
 Example C06_example_dedent :
   (exists t, parse_blocks 200 ded_ok = Ok t) /\ parse_blocks 200 ded_bad = Reject.
